@@ -36,6 +36,8 @@ fn main() {
         "live" => engines::live::run(&args),
         "live-child" => engines::live::child(&args),
         "space" => engines::space::run(&args),
+        "fuzzopen" => engines::fuzzopen::run(&args),
+        "fuzz-child" => engines::fuzzopen::child(&args),
         "scratch" => engines::scratchpad::run(&args),
         other => {
             eprintln!("unknown engine {other}");
